@@ -175,7 +175,9 @@ template <class E> struct Runner {
     }
 
     // fork: child runs the plan (fresh library state because the parent never called into it)
-    Result run_forked(const Plan &plan) {
+    typedef std::vector<Plan> Prelude; // plans executed earlier in the same process (same batch child)
+
+    Result run_forked(const Plan &plan, const Prelude &prelude = Prelude()) {
         std::string base = tmpdir + "/one." + std::to_string(getpid());
         std::string outp = base + ".out", errp = base + ".err";
         fflush(stdout); fflush(stderr);
@@ -184,6 +186,7 @@ template <class E> struct Runner {
             int efd = open(errp.c_str(), O_WRONLY | O_CREAT | O_TRUNC, 0644);
             if (efd >= 0) { dup2(efd, 2); close(efd); }
             E::proc_setup(plan.pk);
+            for (const Plan &pp : prelude) (void) E::execute(pp);
             Result r = E::execute(plan);
             write_file(outp, r.to_json().dump());
             _exit(0);
@@ -196,10 +199,17 @@ template <class E> struct Runner {
     }
 
     // exec: a brand-new process image (new ASLR layout) runs the plan via --oneshot
-    Result run_exec(const Plan &plan) {
+    static Json pack(const Plan &plan, const Prelude &prelude) {
+        Json j = Json::object();
+        Json pl = Json::array();
+        for (const Plan &pp : prelude) pl.push(E::to_json(pp));
+        j["prelude"] = pl; j["plan"] = E::to_json(plan);
+        return j;
+    }
+    Result run_exec(const Plan &plan, const Prelude &prelude = Prelude()) {
         std::string base = tmpdir + "/exec." + std::to_string(getpid());
         std::string inp = base + ".plan", outp = base + ".out", errp = base + ".err";
-        write_file(inp, E::to_json(plan).dump());
+        write_file(inp, pack(plan, prelude).dump());
         fflush(stdout); fflush(stderr);
         pid_t pid = fork();
         if (pid == 0) {
@@ -218,8 +228,10 @@ template <class E> struct Runner {
     }
 
     int oneshot_main() {
-        Plan plan = E::from_json(Json::parse(read_file(opt.oneshot)));
+        Json in = Json::parse(read_file(opt.oneshot));
+        Plan plan = E::from_json(in.at("plan"));
         E::proc_setup(plan.pk);
+        for (auto &pj : in.at("prelude").a) (void) E::execute(E::from_json(pj));
         Result r = E::execute(plan);
         std::string s = r.to_json().dump();
         fwrite(s.data(), 1, s.size(), stdout);
@@ -232,13 +244,30 @@ template <class E> struct Runner {
         return b.violated && a.vclass == b.vclass && a.locus == b.locus;
     }
 
-    Plan minimise(const Plan &orig, const Result &target, int budget, int &used) {
+    Plan minimise(const Plan &orig, const Result &target, int budget, int &used, Prelude &prelude) {
         Plan best = orig;
         used = 0;
+        // first drop whole earlier plans of the batch (ddmin over the prelude as units)
+        {
+            size_t n = 2;
+            while (!prelude.empty() && used < budget) {
+                size_t len = prelude.size();
+                if (n > len) n = len;
+                size_t chunk = (len + n - 1) / n;
+                bool reduced = false;
+                for (size_t i = 0; i < len && used < budget; i += chunk) {
+                    Prelude cand = prelude;
+                    cand.erase(cand.begin() + (long) i, cand.begin() + (long) std::min(len, i + chunk));
+                    ++used;
+                    if (same_violation(target, run_forked(best, cand))) { prelude = cand; n = std::max<size_t>(n - 1, 2); reduced = true; break; }
+                }
+                if (!reduced) { if (chunk <= 1) break; n = std::min(len, n * 2); }
+            }
+        }
         auto test = [&](const Plan &cand) {
             if (used >= budget) return false;
             ++used;
-            return same_violation(target, run_forked(cand));
+            return same_violation(target, run_forked(cand, prelude));
         };
         // ddmin over ops
         size_t n = 2;
@@ -425,29 +454,41 @@ template <class E> struct Runner {
                   [](const std::pair<uint64_t, std::pair<Json, Result>> &a, const std::pair<uint64_t, std::pair<Json, Result>> &b) { return a.first < b.first; });
         std::set<std::string> seen;
         Json reported = Json::array();
-        int nviol = 0, nknown = 0;
+        int nviol = 0, nknown = 0, unconfirmed = 0;
         for (auto &v : agg.violations) {
             const Result &orig = v.second.second;
             std::string key = orig.vclass + "|" + orig.locus;
             if (seen.count(key) || seen.size() >= 3) continue;
             seen.insert(key);
             Plan plan = E::from_json(v.second.first);
-            // determinism gate
+            // determinism gate: alone in a fresh process first; if that does not reproduce, with the earlier runs of
+            // its batch as a prelude (process-level state of the code under test may carry over between runs)
+            Prelude prelude;
             Result a = run_forked(plan), b = run_exec(plan);
             bool ok = same_violation(orig, a) && same_violation(orig, b) && a.digest == b.digest &&
                       (orig.vclass == "crash" || a.digest == orig.digest);
+            if (!ok) {
+                uint64_t b0 = (v.first / bsz) * bsz;
+                Json pk = E::pknobs(opt.seed, v.first / bsz, opt.thorough);
+                for (uint64_t r = b0; r < v.first; r++) prelude.push_back(E::generate(opt.seed, r, pk, opt.thorough));
+                a = run_forked(plan, prelude); b = run_exec(plan, prelude);
+                ok = same_violation(orig, a) && same_violation(orig, b) && a.digest == b.digest && (orig.vclass == "crash" || a.digest == orig.digest);
+                if (ok) printf("NOTE property=%s run=%llu reproduces only after the %zu earlier runs of its batch (state carried inside the code under test)\n", E::property(),
+                               (unsigned long long) v.first, prelude.size());
+            }
             if (!ok) {
                 printf("HARNESS-NONDETERMINISM property=%s run=%llu sweep={%s,%s,%s} fork={%d,%s,%s,%s} exec={%d,%s,%s,%s}\n", E::property(),
                        (unsigned long long) v.first, orig.vclass.c_str(), orig.locus.c_str(), hex64(orig.digest).c_str(), a.violated, a.vclass.c_str(),
                        a.locus.c_str(), hex64(a.digest).c_str(), b.violated, b.vclass.c_str(), b.locus.c_str(), hex64(b.digest).c_str());
                 printf("  detail: %s\n", orig.detail.c_str());
-                exit_code = 2;
+                unconfirmed++;
                 continue;
             }
             int used = 0;
-            Plan minp = opt.no_shrink ? plan : minimise(plan, orig, 400, used);
-            Result fin = run_exec(minp);
-            if (!same_violation(orig, fin)) { minp = plan; fin = b; } // never report an unconfirmed minimisation
+            Prelude full_prelude = prelude;
+            Plan minp = opt.no_shrink ? plan : minimise(plan, orig, 400, used, prelude);
+            Result fin = run_exec(minp, prelude);
+            if (!same_violation(orig, fin)) { minp = plan; prelude = full_prelude; fin = b; } // never report an unconfirmed minimisation
             // known finding?
             const KnownFinding *kf = nullptr;
             for (auto &k : known)
@@ -463,6 +504,7 @@ template <class E> struct Runner {
                 Json rf = Json::object();
                 rf["property"] = E::property(); rf["engine"] = E::name(); rf["binary"] = opt.tag;
                 rf["seed"] = opt.seed; rf["run"] = v.first; rf["plan"] = E::to_json(minp);
+                if (!prelude.empty()) { Json pl = Json::array(); for (auto &pp : prelude) pl.push(E::to_json(pp)); rf["prelude"] = pl; }
                 Json vi = Json::object();
                 vi["class"] = fin.vclass; vi["locus"] = fin.locus; vi["step"] = fin.step; vi["detail"] = fin.detail;
                 rf["violation"] = vi; rf["digest"] = hex64(fin.digest);
@@ -478,6 +520,7 @@ template <class E> struct Runner {
             reported.push(rep);
         }
 
+        if (unconfirmed && exit_code == 0) exit_code = 2; // harness (or un-replayable) trouble, never a property verdict
         // ---- partial evidence ----
         double wall = now_s() - t0;
         Json ev = Json::object();
@@ -517,8 +560,10 @@ template <class E> struct Runner {
     int replay_main() {
         Json rf = Json::parse(read_file(opt.replay));
         Plan plan = E::from_json(rf.at("plan"));
-        Result a = run_forked(plan);
-        Result b = run_exec(plan);
+        Prelude prelude;
+        for (auto &pj : rf.at("prelude").a) prelude.push_back(E::from_json(pj));
+        Result a = run_forked(plan, prelude);
+        Result b = run_exec(plan, prelude);
         printf("replay %s: violated=%d class=%s locus=%s step=%d digest=%s (fresh process: violated=%d digest=%s)\n", opt.replay.c_str(), a.violated,
                a.vclass.c_str(), a.locus.c_str(), a.step, hex64(a.digest).c_str(), b.violated, hex64(b.digest).c_str());
         if (a.violated) printf("  %s\n", a.detail.c_str());
